@@ -17,3 +17,8 @@ def run(ctx, rep):
     from ..rules import more
     more.rule_kernel_columns(mod, rep)
     more.rule_release_after(mod, rep)
+    import re
+    from ..rules import more2
+    more2.rule_arg_names(mod, rep, lambda f: re.match(r"p[sdcz]gssv$|p[sdcz]gstrf", f.name) is not None, floor=1)
+    from ..rules import more3
+    more3.rule_kernel_base(mod, rep)
